@@ -132,7 +132,7 @@ func blocktimeToBytes(blocktime int64) ([]byte, error) {
 func (i *Index) unmarshalBinary(data []byte) error {
 	reader := bytes.NewReader(data)
 	magicBuf := make([]byte, len(magic))
-	_, err := reader.Read(magicBuf)
+	_, err := io.ReadFull(reader, magicBuf)
 	if err != nil {
 		return fmt.Errorf("failed to read magic: %w", err)
 	}
@@ -141,21 +141,21 @@ func (i *Index) unmarshalBinary(data []byte) error {
 	}
 
 	startBuf := make([]byte, 8)
-	_, err = reader.Read(startBuf)
+	_, err = io.ReadFull(reader, startBuf)
 	if err != nil {
 		return fmt.Errorf("failed to read start: %w", err)
 	}
 	i.start = slottools.Uint64FromLEBytes(startBuf)
 
 	endBuf := make([]byte, 8)
-	_, err = reader.Read(endBuf)
+	_, err = io.ReadFull(reader, endBuf)
 	if err != nil {
 		return fmt.Errorf("failed to read end: %w", err)
 	}
 	i.end = slottools.Uint64FromLEBytes(endBuf)
 
 	epochBuf := make([]byte, 8)
-	_, err = reader.Read(epochBuf)
+	_, err = io.ReadFull(reader, epochBuf)
 	if err != nil {
 		return fmt.Errorf("failed to read epoch: %w", err)
 	}
@@ -173,7 +173,7 @@ func (i *Index) unmarshalBinary(data []byte) error {
 	}
 
 	capacityBuf := make([]byte, 8)
-	_, err = reader.Read(capacityBuf)
+	_, err = io.ReadFull(reader, capacityBuf)
 	if err != nil {
 		return fmt.Errorf("failed to read capacity: %w", err)
 	}
@@ -182,7 +182,7 @@ func (i *Index) unmarshalBinary(data []byte) error {
 	i.values = make([]int64, i.capacity)
 	for j := uint64(0); j < i.capacity; j++ {
 		timeBuf := make([]byte, 4)
-		_, err = reader.Read(timeBuf)
+		_, err = io.ReadFull(reader, timeBuf)
 		if err != nil {
 			return fmt.Errorf("failed to read time: %w", err)
 		}
